@@ -129,7 +129,7 @@ def run_unit(ctx: Ctx, qualname: str) -> None:
                 "an exception raised into the application leaves nothing emitted in this call",
                 pr.where or where_exit,
                 note=f"{ename} raised after {n} emitted event(s)",
-                props=fc.props,
+                props=("C12",) if "C12" in fc.props else fc.props,
                 assume_after=False,
             )
         else:
@@ -208,6 +208,13 @@ def _frame_eq(interp, unit, path, v, ov, where_exit, fc):
 
     ctx = interp.ctx
     if v is ov:
+        return
+    from .sym import SymOpt as _SO
+
+    if isinstance(v, _SO) and isinstance(ov, _SO) and isinstance(v.value, SObj) and isinstance(ov.value, SObj):
+        ctx.prove(f"{unit}.frame.{path}", v.is_none == ov.is_none, f"{path} == old({path})  (not in modifies)", where_exit, note="frame condition", props=fc.props)
+        for g, w in v.value.fields.items():
+            _frame_eq(interp, unit, f"{path}.{g}", w, ov.value.fields.get(g, UNSET), where_exit, fc)
         return
     try:
         if isinstance(v, SymMap) and isinstance(ov, SymMap):
